@@ -192,7 +192,8 @@ def sorted_cover(R, lib, fn, size_var):
                         '(need: a name variable whose verified run starts at index 0 and ends at %s-1); known at this exit: %s' % (size_var, size_var, descr))
 
 
-def analyse(R, lib, fn, size_var, summaries, entry_facts=None):
+def analyse(R, lib, fn, size_var, summaries, entry_facts=None, pending=None):
+    viol = (lambda rid, c, loc, msg: pending.append((fn.name, rid, c, loc, msg))) if pending is not None else R.violation
     hooks = RegHooks(R, fn, size_var, summaries, lib)
     ai = SentinelAbsInt(fold_global=lib.global_value, hooks=hooks)
     st = DBM()
@@ -210,7 +211,7 @@ def analyse(R, lib, fn, size_var, summaries, entry_facts=None):
         if ob.kind == 'access':
             R.instance('R1', ob.construct, ob.loc, 'registry access')
             if not ob.ok and (ob.construct, ob.loc) not in seen:
-                R.violation('R1', ob.construct, ob.loc, ob.msg + '; known: ' + ob.state)
+                viol('R1', ob.construct, ob.loc, ob.msg + '; known: ' + ob.state)
             seen.add((ob.construct, ob.loc))
             continue
         c = '%s:%s' % (fn.name, ob.construct)
@@ -219,7 +220,7 @@ def analyse(R, lib, fn, size_var, summaries, entry_facts=None):
         if exc:
             R.exception('R1-conv', c, exc)
             continue
-        R.violation('R1-conv', c, ob.loc, ob.msg + '; known: ' + ob.state)
+        viol('R1-conv', c, ob.loc, ob.msg + '; known: ' + ob.state)
     R.instance('R1-conv', fn.name, fn.loc, 'all narrowing conversions of the function')
     # termination
     for lp in ai.loops:
@@ -228,7 +229,7 @@ def analyse(R, lib, fn, size_var, summaries, entry_facts=None):
         R.instance('R1-term', cn, lp['loc'])
         msg = ranking(ai, lp)
         if msg:
-            R.violation('R1-term', cn, lp['loc'], msg)
+            viol('R1-term', cn, lp['loc'], msg)
     return ai, hooks
 
 
@@ -314,7 +315,7 @@ def caller_facts(R, lib, inst):
                 if e.k == 'call' and e.a[0] == REG + '::binarySearchByName':
                     callers.append((f, e))
     if not callers:
-        raise AnalysisError('anchor moved: no call of binarySearchByName in ZoneRegistrar')
+        return 0        # reached through a function pointer or a dispatcher: no fact about the size is assumed
     lows = []
 
     class H(Hooks):
@@ -345,13 +346,14 @@ def run(cfg):
     R.rule('R2-dir', 'the binary search finds every present name and no absent one on every sorted abstract registry', floor=2)
     R.rule('R2-sorted', 'the binary search is reached only on paths where mIsSorted holds', floor=2)
     R.rule('R2-cover', 'isSorted() answers true exactly for the non-empty ascending abstract registries', floor=2)
-    R.rule('R3', 'ZoneManagerImpl wrappers pass registrar results unchanged; null maps to TimeZone::forError()', floor=8)
+    R.rule('R3', 'ZoneManagerImpl: a found entry becomes a TimeZone holding that entry and this manager\'s cache, not found becomes the error zone; index and size queries pass the registrar\'s answers on (interpreted)', floor=8)
     insts = sorted({f.inst for f in lib.funcs.get(REG + '::binarySearchByName', []) if f.inst != 'primary'})
     if len(insts) < 2:
         raise AnalysisError('anchor moved: expected Basic and Extended instantiations of ZoneRegistrar, got %r' % insts)
     inv = lib.const(REG + '::kInvalidIndex') if lib.global_value(REG + '::kInvalidIndex') is not None else INVALID
     R.analysed['instantiations'] = insts
     R.analysed['functions'] = []
+    pending = []
     for inst in insts:
         tag = 'basic' if 'basic' in inst else 'extended'
         lowb = caller_facts(R, lib, inst)
@@ -373,17 +375,25 @@ def run(cfg):
             facts = []
             if name == 'binarySearchByName' and lowb > 0:
                 facts.append(('0', f.params[1][0], -lowb))
-            ai, hk = analyse(R, lib, f, f.params[1][0], {}, facts)
+            ai, hk = analyse(R, lib, f, f.params[1][0], {}, facts, pending=pending)
             R.analysed['functions'].append('%s [%s]' % (f.name, tag))
         for name in ('getZoneInfoForIndex', 'getZoneInfoForName', 'getZoneInfoForId', 'findIndexForName', 'findIndexForId'):
             f = lib.fn(REG + '::' + name, inst)
             s = dict(summ)
             s.update(member_summary)
-            ai, hk = analyse(R, lib, f, 'this.mRegistrySize', s)
+            ai, hk = analyse(R, lib, f, 'this.mRegistrySize', s, pending=pending)
             R.analysed['functions'].append('%s [%s]' % (f.name, tag))
             if name.startswith('findIndex'):
                 delegate_rule(R, lib, f)
-        search_eval(R, lib, inst, tag, inv)
+        clean, maxn = search_eval(R, lib, inst, tag, inv)
+        for fname, rid, c, loc, msg in pending:
+            if fname in clean:
+                # E-ABS could not prove it for registries of every size, and E-SEQ found nothing on the small ones: said, not alarmed
+                R.undecided_obligation(rid, c, loc, msg + ' - NOT PROVED for registries of every size; on every abstract registry of 0..%d entries the '
+                                       'interpreted look-up stays inside the registry, terminates and returns the right index' % maxn)
+            else:
+                R.violation(rid, c, loc, msg)
+        del pending[:]
     manager_rules(R, lib)
     return R
 
@@ -429,7 +439,7 @@ def search_eval(R, lib, inst, tag, inv):
     thorough = R.cfg.tier == 'thorough'
     rng = random.Random(R.cfg.seed or 0)
     maxn = 11 if thorough else 9
-    counts = {'R2': 0, 'R2-dir': 0, 'R2-cover': 0}
+    counts = {'R2': 0, 'R2-dir': 0, 'R2-cover': 0, 'R2-sorted': 0}
     first = {}
 
     def note(rule, construct, loc, text):
@@ -464,6 +474,13 @@ def search_eval(R, lib, inst, tag, inv):
                 for f_, rule, c, args, recv in searches:
                     counts[rule] += 1
                     got = call(f_, args, recv)
+                    if f_ is fin and not is_sorted and n >= 2:
+                        # on an unsorted registry the dispatcher must not end up in the bisection (it would miss present names)
+                        counts['R2-sorted'] += 1
+                        if got != want:
+                            note('R2-sorted', '%s:binary-search-gate' % fin.name, fin.loc, 'registry of %d entries with names in the order %s (mIsSorted is false), query rank %d: '
+                                 'findIndexForName gives %s, expected %s: an unsorted registry is searched as if it were sorted'
+                                 % (n, order, q, got[1] if isinstance(got, tuple) else ('index %d' % got if got != inv else 'not found'), ('index %d' % want) if want != inv else 'not found'))
                     if got != want:
                         note(rule, c, f_.loc, '%s on a registry of %d entries with names in the order %s, query %s: %s, expected %s'
                              % (f_.name.split('::')[-1], n, order, 'rank %d' % q, got[1] if isinstance(got, tuple) else ('index %d' % got if got != inv else 'not found'),
@@ -477,11 +494,17 @@ def search_eval(R, lib, inst, tag, inv):
                         note('R2', c, f_.loc, '%s on a registry of %d entries, id %d: %s, expected %s'
                              % (f_.name.split('::')[-1], n, zid, got[1] if isinstance(got, tuple) else ('index %d' % got if got != inv else 'not found'),
                                 ('index %d' % want) if want != inv else 'not found'))
+    faulty = set()
+    for (rule_, c_), _v in first.items():
+        faulty.add(c_.rsplit(':', 1)[0])
     for rule, c, loc in (('R2', '%s:found' % lin.name, lin.loc), ('R2', '%s:found' % lid.name, lid.loc), ('R2', '%s:return' % fin.name, fin.loc),
-                         ('R2', '%s:return' % fid.name, fid.loc), ('R2-dir', '%s:direction' % bsr.name, bsr.loc), ('R2-cover', '%s:return-true' % srt.name, srt.loc)):
+                         ('R2', '%s:return' % fid.name, fid.loc), ('R2-dir', '%s:direction' % bsr.name, bsr.loc), ('R2-cover', '%s:return-true' % srt.name, srt.loc),
+                         ('R2-sorted', '%s:binary-search-gate' % fin.name, fin.loc)):
         R.instance(rule, c, loc, '[%s] %d interpreted look-ups' % (tag, counts[rule]), n=max(1, counts[rule] // 4))
         if (rule, c) in first:
             R.violation(rule, c, first[(rule, c)][0], '[%s] %s' % (tag, first[(rule, c)][1]))
+    covered = {lin.name, bsr.name, lid.name, srt.name, fin.name, fid.name}
+    return (covered - faulty) if not faulty else set(), maxn
 
 
 def returns_rule(R, lib, f, ai, size_var, inv):
@@ -504,20 +527,8 @@ def returns_rule(R, lib, f, ai, size_var, inv):
 
 
 def delegate_rule(R, lib, f):
-    for s in walk_stmts(f.body):
-        if s.k == 'return':
-            e = s.a[0]
-            while e.k == 'cast':
-                e = e.a[2]
-            c = '%s:return' % f.name
-            R.instance('R2', c, s.loc, show(e)[:80])
-            ok = e.k == 'call' and e.a[0].split('::')[-1] in ('binarySearchByName', 'linearSearchByName', 'linearSearchById')
-            if ok:
-                a = e.a[2]
-                ok = len(a) == 3 and path_of(a[0]) == 'this.mZoneRegistry' and path_of(a[1].a[2] if a[1].k == 'cast' else a[1]) == 'this.mRegistrySize' \
-                    and path_of(a[2]) == f.params[0][0]
-            if not ok:
-                R.violation('R2', c, s.loc, 'does not return a search over (mZoneRegistry, mRegistrySize, %s)' % f.params[0][0])
+    # that findIndexFor* answer like the searches over (mZoneRegistry, mRegistrySize, query) is decided by search_eval on
+    # every abstract registry; here only the gate in front of a directly called bisection
     # the bisection presupposes the order isSorted() established: it may only be reached on paths where mIsSorted is true
 
     class SortedGate(Rule):
@@ -721,78 +732,100 @@ def found_rule(R, lib, inst, tag):
 
 
 def manager_rules(R, lib):
+    """ZoneManagerImpl is interpreted (E-SEQ, typed; registrar, brokers and the TimeZone constructors through their real bodies,
+    string comparators abstracted to the sign of a rank difference, the cache to an object that answers getType()) on
+    registries of 0, 1, 3 and 7 entries: createForZoneName / Id / Index give a TimeZone that holds exactly the registry entry
+    found and this manager's cache, of the cache's type - or the error zone when nothing is found; indexForZoneName / Id and
+    registrySize pass the registrar's answers on."""
+    from .aeval import AEval, AObj, CxxModule, Raised, Ref
     q = 'ace_time::ZoneManagerImpl'
     insts = sorted({f.inst for f in lib.funcs.get(q + '::createForZoneInfo', []) if f.inst != 'primary'})
     if len(insts) < 2:
         raise AnalysisError('anchor moved: ZoneManagerImpl instantiations: %r' % insts)
-    pairs = {'createForZoneName': 'getZoneInfoForName', 'createForZoneId': 'getZoneInfoForId', 'createForZoneIndex': 'getZoneInfoForIndex'}
-    deleg = {'indexForZoneName': 'findIndexForName', 'indexForZoneId': 'findIndexForId', 'registrySize': 'registrySize'}
+    mod = CxxModule(lib, ['ace_time::'])
+    inv = lib.const(REG + '::kInvalidIndex') if lib.global_value(REG + '::kInvalidIndex') is not None else INVALID
+    kerr = lib.const('ace_time::TimeZone::kTypeError')
+    MARK = 77
+
+    def sgn(ev, recv, args):
+        a, b = args
+        return (a > b) - (a < b)
+    intr = {'strcmp_P': sgn, 'ace_common::strcmp_PP': sgn, 'strcmp': sgn, 'ace_time::ZoneProcessorCache::getType': lambda ev, recv, args: MARK}
     for inst in insts:
-        for m, callee in pairs.items():
-            f = lib.fn(q + '::' + m, inst)
-            c = f.name
-            R.instance('R3', c, f.loc)
-            defs = {}
-            ok = False
-            for s in walk_stmts(f.body):
-                if s.k == 'decl' and s.a[2] is not None:
-                    defs[s.a[0]] = s.a[2]
-                if s.k == 'return' and s.a[0] is not None:
-                    e = s.a[0]
-                    if e.k == 'call' and e.a[0].endswith('::createForZoneInfo') and len(e.a[2]) == 1:
-                        a = e.a[2][0]
-                        while a.k == 'cast':
-                            a = a.a[2]
-                        if a.k == 'var' and a.a[0] in defs:
-                            a = defs[a.a[0]]
-                        if a.k == 'call' and a.a[0].endswith('::' + callee) and path_of(a.a[1]) == 'this.mZoneRegistrar' \
-                                and len(a.a[2]) == 1 and path_of(a.a[2][0]) == f.params[0][0]:
-                            ok = True
-            if not ok:
-                R.violation('R3', c, f.loc, 'does not return createForZoneInfo(mZoneRegistrar.%s(%s))' % (callee, f.params[0][0]))
-        for m, callee in deleg.items():
-            f = lib.fn(q + '::' + m, inst)
-            R.instance('R3', f.name, f.loc)
-            ok = False
-            for s in walk_stmts(f.body):
-                if s.k == 'return' and s.a[0] is not None:
-                    e = s.a[0]
-                    while e.k == 'cast':
-                        e = e.a[2]
-                    if e.k == 'call' and e.a[0].endswith('::' + callee) and path_of(e.a[1]) == 'this.mZoneRegistrar' and \
-                            [path_of(x) for x in e.a[2]] == [p for p, _ in f.params]:
-                        ok = True
-            if not ok:
-                R.violation('R3', f.name, f.loc, 'does not delegate to mZoneRegistrar.%s' % callee)
-        f = lib.fn(q + '::createForZoneInfo', inst)
-        zi = f.params[0][0]
+        tag = 'basic' if 'asic' in inst else 'extended'
+        flds = {}
+        cls = [c for c in lib.classes.get(q, []) if c.get('_inst') == inst]
+        from .cxx import nty
+        for c_ in cls[:1]:
+            for x in c_.get('inner', []):
+                if x.get('kind') == 'FieldDecl':
+                    flds[x['name']] = nty(x) or ''
+        reg_f = [n for n, ty in flds.items() if 'Registrar' in ty]
+        cache_f = [n for n, ty in flds.items() if 'Cache' in ty]
+        if len(reg_f) != 1 or len(cache_f) != 1:
+            raise AnalysisError('%s [%s]: expected one registrar and one cache member, found %r' % (q, tag, flds))
+        first = {}
+        counts = {}
 
-        class ZR(Rule):
-            def initial(self_):
-                return ['unknown']
+        def note(c, loc, text):
+            first.setdefault(c, (loc, text))
+        for n in (0, 1, 3, 7):
+            order = [2 * i for i in range(n)]
+            reg = [AObj({'name': r, 'zoneId': 1000 + r}, oid='z%d' % r) for r in order]
+            registrar = AObj({'mRegistrySize': n, 'mZoneRegistry': reg, 'mIsSorted': 1 if n >= 1 else 0}, oid='registrar', cls=REG,
+                             ftypes={'mRegistrySize': (16, False), 'mIsSorted': (8, False)})
+            cache = AObj({}, oid='cache', cls='ace_time::ZoneProcessorCache')
+            mgr = AObj({reg_f[0]: registrar, cache_f[0]: cache}, oid='manager', cls=q)
 
-            def refine(self_, cond, st, truth):
-                from .rules_C08 import null_test
-                p, positive = null_test(cond)
-                if p == zi:
-                    return 'nonnull' if truth == positive else 'null'
-                return st
+            def call(m, args):
+                f = lib.fn(q + '::' + m, inst)
+                counts[f.name] = counts.get(f.name, 0) + 1
+                try:
+                    return f, AEval(module=mod, intrinsics=intr, typed=True, max_steps=20000).call_function(f.name, list(args), recv=mgr, chosen=CxxModule._Fn(f))
+                except IndexError:
+                    return f, ('fault', 'reads outside the registry')
+                except Raised as x_:
+                    return f, ('fault', 'raises %s' % x_.what)
 
-            def at_exit(self_, kind, stmt, st, tr):
-                if kind != 'return':
-                    return
-                e = stmt.a[0]
-                c = f.name + ':' + st
-                R.instance('R3', c, stmt.loc)
-                if st == 'null':
-                    if not (e.k == 'call' and e.a[0] == 'ace_time::TimeZone::forError'):
-                        R.violation('R3', c, stmt.loc, 'a null zone info does not map to TimeZone::forError()')
-                else:
-                    ok = e.k == 'init' and len(e.a[1]) == 2 and path_of(e.a[1][0].a[-1] if e.a[1][0].k in ('cast', 'ptrcast') else e.a[1][0]) == zi \
-                        and e.a[1][1].k == 'addr' and path_of(e.a[1][1].a[0]) == 'this.mZoneProcessorCache'
-                    if st == 'unknown' or not ok:
-                        R.violation('R3', c, stmt.loc, 'found entry is not turned into TimeZone(<that zone info>, &mZoneProcessorCache) under a null test', detail=list(tr))
-        Engine(ZR()).run(f.body)
+            def describe(tz):
+                if isinstance(tz, tuple):
+                    return tz[1]
+                if not isinstance(tz, AObj) or 'mType' not in tz.attrs:
+                    return 'not a TimeZone (%r)' % (tz,)
+                if tz.attrs['mType'] == kerr:
+                    return 'the error zone'
+                zi = tz.attrs.get('mZoneInfo')
+                zi = zi.get() if isinstance(zi, Ref) else zi
+                ch = tz.attrs.get('mZoneProcessorCache')
+                ch = ch.get() if isinstance(ch, Ref) else ch
+                who = next((e.oid for e in reg if e is zi), 'no registry entry')
+                return 'a zone of type %s for %s with %s' % ('<cache type>' if tz.attrs['mType'] == MARK else tz.attrs['mType'], who, 'this cache' if ch is cache else 'another cache')
+            queries = [('createForZoneName', 'indexForZoneName', r, (order.index(r) if r in order else None)) for r in [-1] + [x + d for x in order for d in (0, 1)]]
+            queries += [('createForZoneId', 'indexForZoneId', zid, (order.index(zid - 1000) if (zid - 1000) in order else None)) for zid in [0, 999] + [1000 + x for x in order] + [1001]]
+            queries += [('createForZoneIndex', None, k, (k if k < n else None)) for k in range(0, n + 2)]
+            for m, im, arg, want in queries:
+                f, tz = call(m, [arg])
+                exp = 'the error zone' if want is None else 'a zone of type <cache type> for z%d with this cache' % order[want]
+                got = describe(tz)
+                if got != exp:
+                    note(f.name, f.loc, '[%s] registry of %d entries, %s(%s): the result is %s, expected %s' % (tag, n, m, arg, got, exp))
+                if im:
+                    f2, ix = call(im, [arg])
+                    wi = inv if want is None else want
+                    if ix != wi:
+                        note(f2.name, f2.loc, '[%s] registry of %d entries, %s(%s) gives %s, the registrar says %s' % (tag, n, im, arg, ix[1] if isinstance(ix, tuple) else ix, wi))
+            f3, sz = call('registrySize', [])
+            if sz != n:
+                note(f3.name, f3.loc, '[%s] registrySize() gives %s for a registry of %d entries' % (tag, sz, n))
+            f4, tz = call('createForZoneInfo', [None])
+            if describe(tz) != 'the error zone':
+                note(f4.name + ':null', f4.loc, '[%s] a null zone info does not map to TimeZone::forError() but to %s' % (tag, describe(tz)))
+            counts[f4.name + ':null'] = counts.get(f4.name + ':null', 0) + 1
+        for c in sorted(counts):
+            loc = lib.fn(c.split(':null')[0], inst).loc
+            R.instance('R3', c, loc, '[%s] %d interpreted calls' % (tag, counts[c]))
+            if c in first:
+                R.violation('R3', c, first[c][0], first[c][1])
 
 
 SELFTEST = [
